@@ -15,6 +15,8 @@ const SRC: [&str; 6] = ["a", "b", "c", "d", "e", "f"];
 const LETTERS: [[&str; 3]; 6] = [["m", "n", "o"], ["p", "q", "r"], ["s", "t", "u"], ["v", "w", "x"], ["y", "z", "comm"], [".", "/", "i"]];
 const MODS: [(&str, &str); 6] = [("S-", "lsft"), ("C-", "lctl"), ("A-", "lalt"), ("M-", "lmet"), ("RS-", "rsft"), ("RC-", "rctl")];
 const OTHER: [&str; 2] = ["g", "h"];
+/// the unicode character of macro i (identifies the macro in the output)
+const UNI: [&str; 6] = ["é", "ü", "ö", "ñ", "ç", "ß"];
 
 #[derive(Clone, Debug, PartialEq, Eq, Hash)]
 pub enum MI {
@@ -50,7 +52,7 @@ fn item_text(i: usize, it: &MI) -> String {
         MI::Chord(k) => format!("{}{}", MODS[i].0, LETTERS[i][*k]),
         MI::Group(v) => format!("{}({})", MODS[i].0, v.iter().map(|x| item_text(i, x)).collect::<Vec<_>>().join(" ")),
         MI::List(v) => format!("({})", v.iter().map(|x| item_text(i, x)).collect::<Vec<_>>().join(" ")),
-        MI::Unicode => "🔣é".to_string(),
+        MI::Unicode => format!("🔣{}", UNI[i]),
         MI::MouseTap => "mltp".to_string(),
     }
 }
@@ -205,6 +207,17 @@ fn item_strategy() -> BoxedStrategy<MI> {
     .boxed()
 }
 
+fn unicode_items(items: &[MI]) -> usize {
+    items
+        .iter()
+        .map(|i| match i {
+            MI::Unicode => 1,
+            MI::Group(v) | MI::List(v) => unicode_items(v),
+            _ => 0,
+        })
+        .sum()
+}
+
 fn has_key_event(items: &[MI]) -> bool {
     items.iter().any(|i| match i {
         MI::Key(_) | MI::Chord(_) => true,
@@ -314,13 +327,26 @@ fn judge_case(c: &MCase8) -> Verdict {
                 return Verdict::failed("macro:output-before-trigger", describe(i, &proj));
             }
         }
-        if expected.is_empty() {
-            continue;
-        }
         // the same macro activated again while it may still be running interleaves two copies
         // on the same keys: outside what this oracle can parse
         let dur = duration(&steps[i]);
         let self_overlap = a.presses.windows(2).any(|w| w[1] < w[0] + dur + 8) || (matches!(variant, 4 | 5) && a.presses.len() > 1);
+        // unicode items: every complete run types each of its characters (checked where every
+        // activation is a complete run: no cancel variant in the configuration, at most 4 at once)
+        let uni_per_round = unicode_items(&m.body);
+        let uni_seen = outs.iter().filter(|o| matches!(&o.ev, OutEv::Unicode(s) if s.as_str() == UNI[i])).count();
+        if uni_per_round == 0 && uni_seen > 0 {
+            return Verdict::failed("macro:unicode-not-in-its-list", format!("{}\n{uni_seen} unicode outputs of a macro that has none", describe(i, &proj)));
+        }
+        if expected.is_empty() {
+            if variant == 0 && !any_cancel_variant && !self_overlap && max_conc <= 4 && uni_per_round > 0 {
+                v.classes.push("unicode-items-counted");
+                if uni_seen != uni_per_round * a.presses.len() {
+                    return Verdict::failed("macro:unicode-item-count", format!("{}\n{} activations of {} unicode items each, but {uni_seen} characters were typed", describe(i, &proj), a.presses.len(), uni_per_round));
+                }
+            }
+            continue;
+        }
         if self_overlap {
             v.classes.push("self-overlap-skipped");
             continue;
@@ -444,6 +470,12 @@ fn judge_case(c: &MCase8) -> Verdict {
                         }
                     }
                 }
+            }
+        }
+        if !cuts_allowed && uni_per_round > 0 && partial_rounds == 0 {
+            v.classes.push("unicode-items-counted");
+            if uni_seen != uni_per_round * complete_rounds {
+                return Verdict::failed("macro:unicode-item-count", format!("{}\n{complete_rounds} complete runs of {uni_per_round} unicode items each, but {uni_seen} characters were typed", describe(i, &proj)));
             }
         }
         nontrivial |= has_key_event(&m.body) && (m.body.iter().any(|x| matches!(x, MI::Group(_) | MI::List(_))) || partial_rounds > 0 || max_conc >= 2);
